@@ -19,8 +19,9 @@ package main
 // gives the topic string.
 //
 // Line:   c08 <prefix hex|-> <scope name hex> <delim hex> <op hex,…> <value hex,…|.>
-// Output: err:badvar | err:parse | err:compile | excluded:<class> |
-//         ok vars=<hex,…|.> <op hex>:<lang.entry>=<template>@<topic hex|fail>;… (one group per operation)
+// Output: err:badvar | err:parse |
+//         ok vars=<hex,…|.> <op hex>:<lang.entry>=<template>@<topic hex|fail>;… (one group per operation;
+//         H = the target is in the exact class of the finding prefix-token-format-chars, F = its generator failed)
 //
 // ORACLE (independent of the Lean model; it is the property): for every operation
 // and language the publisher topic equals the subscriber topic; every language's
@@ -29,11 +30,14 @@ package main
 // (no leading delimiter when there is no prefix); all languages agree.
 // Recorded findings (KNOWN_FINDINGS.txt): Python uses the scope name as written
 // (for names that are not capitalised Python is compared with the as-written spec
-// and with itself only); static tokens containing % " ' \ $ { } are excluded; the Dart
+// and with itself only); a target is not evaluated where a static token contains a character of the
+// finding prefix-token-format-chars' EXACT class for that target (known/c08_format_chars_expected.json,
+// re-established by the census below); the Dart
 // columns are expected to fail when the prefix ends in a variable and the delimiter
 // starts with an identifier character.
 
 import (
+	"encoding/json"
 	"fmt"
 	"os"
 	"path/filepath"
@@ -141,16 +145,61 @@ func c08Tokens(prefix string) (toks []string, isVar []bool) {
 	return
 }
 
-// the class of the recorded finding prefix-token-format-chars
-func c08HazardToken(prefix string) bool {
+// The EXACT class of the recorded finding prefix-token-format-chars: per target and per
+// "the prefix has variables", the characters of a static token the generated code does not read
+// as text. Read from known/c08_format_chars_expected.json (the built-in copy is used when the file
+// is absent); re-established against the real generators by c08Census.
+type c08HzRow struct{ Novars, Vars string }
+
+var c08HzBuiltin = map[string]c08HzRow{
+	"go": {"\"\\", "\"\\%"}, "java": {"\"\\", "\"\\%"}, "dart": {"'\\$", "'\\$%"},
+	"py": {"'\\", "'\\{}"}, "pyaio": {"'\\", "'\\{}"}, "pytor": {"'\\", "'\\{}"},
+}
+
+const c08HzChars = "%\"'\\${}"
+
+var c08HzTable map[string]c08HzRow
+
+func c08Hz() map[string]c08HzRow {
+	if c08HzTable != nil {
+		return c08HzTable
+	}
+	c08HzTable = c08HzBuiltin
+	if data, err := os.ReadFile(filepath.Join(c08KnownDir(), "c08_format_chars_expected.json")); err == nil {
+		var doc struct {
+			Class map[string]struct{ Novars, Vars string } `json:"class"`
+		}
+		if json.Unmarshal(data, &doc) == nil && len(doc.Class) > 0 {
+			t := map[string]c08HzRow{}
+			for k, v := range doc.Class {
+				t[k] = c08HzRow{v.Novars, v.Vars}
+			}
+			c08HzTable = t
+		}
+	}
+	return c08HzTable
+}
+
+// c08Hazard: is the scope in the finding's class for target lang (go, java, dart, py, pyaio, pytor)?
+func c08Hazard(lang, prefix string) bool {
 	toks, isVar := c08Tokens(prefix)
+	hv := false
+	for _, v := range isVar {
+		hv = hv || v
+	}
+	set := c08Hz()[lang].Novars
+	if hv {
+		set = c08Hz()[lang].Vars
+	}
 	for i, t := range toks {
-		if !isVar[i] && strings.ContainsAny(t, "%\"'\\${}") {
+		if !isVar[i] && set != "" && strings.ContainsAny(t, set) {
 			return true
 		}
 	}
 	return false
 }
+
+func c08ColLang(col string) string { return col[:strings.IndexByte(col, '.')] }
 
 // the class of the Dart interpolation defect: the prefix ends in a variable and the
 // delimiter starts with a character that continues a Dart identifier.
@@ -870,10 +919,12 @@ type c08Result struct {
 	status string // ok | err:…
 	vars   []string
 	cells  map[string]map[string]*c08Cell // op -> lang.role -> cell
+	failed map[string]bool                // target -> the generator returned an error / panicked
 }
 
 func c08RunIDL(idl, delim string, ops, vals []string) (res c08Result) {
 	res.cells = map[string]map[string]*c08Cell{}
+	res.failed = map[string]bool{}
 	dir, err := os.MkdirTemp("", "verif-c08-")
 	if err != nil {
 		res.status = "err:scratch"
@@ -913,8 +964,8 @@ func c08RunIDL(idl, delim string, ops, vals []string) (res c08Result) {
 			})
 		})
 		if o != "" || cerr != nil {
-			res.status = "err:compile"
-			return
+			res.failed[g.key] = true // this target's generator failed (e.g. the emitted Go does not parse): its columns are F
+			continue
 		}
 		lang := g.key
 		if strings.HasPrefix(lang, "py") {
@@ -978,7 +1029,7 @@ func markers(n int) []string {
 	return m
 }
 
-func (r c08Result) render(ops []string) string {
+func (r c08Result) render(prefix string, ops []string) string {
 	if r.status != "ok" {
 		return r.status
 	}
@@ -993,6 +1044,10 @@ func (r c08Result) render(ops []string) string {
 			b.WriteString(col + "=")
 			cell := r.cells[op][col]
 			switch {
+			case c08Hazard(c08ColLang(col), prefix):
+				b.WriteString("H") // the exact class of the finding prefix-token-format-chars for this target: not evaluated
+			case r.failed[c08ColLang(col)]:
+				b.WriteString("F")
 			case cell == nil || !cell.found:
 				b.WriteString("X") // not extractable: the emitted text no longer has the expected shape
 			case cell.conflict:
@@ -1037,6 +1092,9 @@ func c08Oracle(c c08Case, r c08Result) (fails []c08Fail, knownTitle bool) {
 		}
 		// publisher = subscriber, per language
 		for _, l := range []string{"go", "java", "dart", "pyaio", "pytor"} {
+			if c08Hazard(l, c.prefix) || r.failed[l] {
+				continue
+			}
 			p := get(l + ".pub")
 			for _, sk := range []string{"sub", "sube", "subt"} {
 				s := get(l + "." + sk)
@@ -1054,11 +1112,18 @@ func c08Oracle(c c08Case, r c08Result) (fails []c08Fail, knownTitle bool) {
 		}
 		// every language = spec (hence all languages agree)
 		for _, col := range c08Cols {
+			lang := c08ColLang(col)
+			if c08Hazard(lang, c.prefix) {
+				continue // recorded finding prefix-token-format-chars, exact class for this target
+			}
+			if r.failed[lang] {
+				fails = append(fails, c08Fail{"the " + langName(lang) + " generator fails on a valid scope outside the recorded classes", col})
+				continue
+			}
 			cell := get(col)
 			if cell == nil || cell.conflict {
 				continue
 			}
-			lang := col[:strings.IndexByte(col, '.')]
 			want := specT
 			if strings.HasPrefix(lang, "py") && !titled {
 				want = specR // recorded finding python-scope-name-not-titled: compared with the name as written
@@ -1099,15 +1164,12 @@ func c08Exec(c c08Case) (outp string, fails []c08Fail) {
 	if !c08ValidUTF8(c) || len(c.ops) == 0 {
 		return "err:parse", nil
 	}
-	if c08HazardToken(c.prefix) {
-		return "excluded:format-chars", nil
-	}
 	r := c08RunIDL(c08IDL(c), c.delim, c.ops, c.vals)
 	if r.status == "ok" && len(c.vals) < len(r.vars) {
 		return "err:parse", nil // not a well-formed case: fewer values than variables
 	}
 	fails, _ = c08Oracle(c, r)
-	return r.render(c.ops), fails
+	return r.render(c.prefix, c.ops), fails
 }
 
 // ---------- generators ----------
@@ -1171,6 +1233,10 @@ func c08VarName(r *Rng) string {
 var c08WordAlphabet = []string{"a", "b", "c", "x", "y", "z", "A", "Q", "Z", "0", "7", "_", "-", "*", ">", "/", ":", "+", "~", "!", "@", "#", "&", "=", ",", ";", "<", "(", ")", "[", "]", "|", "?", "^", "é", "日", "ß"}
 
 func c08Word(r *Rng) string {
+	if r.Chance(12) { // format / quoting characters: outside the finding's exact class they must be read as text
+		w := r.pickStr("%", "%d", "%s", "%%", "50%", "a%b", "\"", "a\"b", "'", "it's", "\\", "a\\n", "$", "$x", "a$", "{a-b}", "{x+}", "100%.", "{-}")
+		return strings.TrimSuffix(w, ".")
+	}
 	if r.Chance(30) {
 		return r.pickStr("foo", "bar", "v1", "events", "*", ">", "a-b", "x_y", "A", "frugal")
 	}
@@ -1331,10 +1397,10 @@ func c08Known() {
 		if r.status == "ok" {
 			g := r.cells[ops[0]]["go.pub"]
 			if g != nil && !g.ok {
-				Known("prefix-token-format-chars", "scope Events prefix a%d.{user}: static prefix token pasted into the format string: Go emits fmt.Sprintf(\"a%d.%s.\", user) (topic a%!d(string=bill).%!s(MISSING).Events.…), Java/Python raise at run time, Dart bakes the garbage into the source; tokens containing % \" ' \\ $ { } are excluded from generation")
+				Known("prefix-token-format-chars", "scope Events prefix a%d.{user}: static prefix token pasted into the format string: Go emits fmt.Sprintf(\"a%d.%s.\", user) (topic a%!d(string=bill).%!s(MISSING).Events.…), Java/Python raise at run time, Dart bakes the garbage into the source; the exact class per target is known/c08_format_chars_expected.json")
 			}
 		} else if r.status == "err:compile" {
-			Known("prefix-token-format-chars", "scope Events prefix a%d.{user}: static prefix token pasted into the format string and the compiler fails to generate; tokens containing % \" ' \\ $ { } are excluded from generation")
+			Known("prefix-token-format-chars", "scope Events prefix a%d.{user}: static prefix token pasted into the format string and the compiler fails to generate; the exact class per target is known/c08_format_chars_expected.json")
 		}
 	}
 }
@@ -1352,7 +1418,125 @@ func c08KnownDart() {
 	}
 }
 
+// ---------- census of the finding's class ----------
+//
+// For one character ch of % " ' \ $ { } and a prefix without (hv=false) or with (hv=true) variables:
+// scopes with ch in a static token at every position of the token list (before / between / after
+// the variables; with hv: one and two variables) and at the start / middle / end of the token are
+// compiled by the real generators; per target: "ok" = every entry point of every such scope gives
+// the spec string, "fail" = none does, "mixed" otherwise. Line: c08hz <target> <0|1> <char hex>.
+func c08CensusScopes(ch byte, hv bool) []c08Case {
+	var toksT []string
+	if ch == '{' || ch == '}' {
+		toksT = []string{"{a-b}"} // the only grammatical static token with braces
+	} else {
+		c := string(ch)
+		toksT = []string{c + "ab", "a" + c + "b", "ab" + c}
+	}
+	var shapes [][]string
+	if !hv {
+		shapes = [][]string{{"T"}, {"w", "T"}, {"T", "w"}}
+	} else {
+		shapes = [][]string{{"T", "{va}"}, {"{va}", "T"}, {"w", "T", "{va}"}, {"T", "{va}", "{vb}"}, {"{va}", "T", "{vb}"}, {"{va}", "{vb}", "T"}}
+	}
+	var out []c08Case
+	for _, sh := range shapes {
+		for _, t := range toksT {
+			var toks, vals []string
+			for _, x := range sh {
+				switch x {
+				case "T":
+					toks = append(toks, t)
+				case "w":
+					toks = append(toks, "foo")
+				default:
+					toks = append(toks, x)
+					vals = append(vals, "val"+x[2:3])
+				}
+			}
+			out = append(out, c08Case{prefix: strings.Join(toks, "."), name: "Events", delim: ".", ops: []string{"Op"}, vals: vals})
+		}
+	}
+	return out
+}
+
+var c08CensusCache = map[string]c08Result{}
+
+func c08CensusCell(target string, ch byte, hv bool) (verdict string, witness c08Case) {
+	nOK, nFail := 0, 0
+	for _, c := range c08CensusScopes(ch, hv) {
+		r, seen := c08CensusCache[c.prefix]
+		if !seen {
+			r = c08RunIDL(c08IDL(c), c.delim, c.ops, c.vals)
+			c08CensusCache[c.prefix] = r
+		}
+		good := r.status == "ok" && !r.failed[target]
+		if good {
+			want := c08Spec(c, c.name, "Op")
+			n := 0
+			for _, col := range c08Cols {
+				if c08ColLang(col) != target {
+					continue
+				}
+				cell := r.cells["Op"][col]
+				n++
+				good = good && cell != nil && cell.ok && !cell.conflict && cell.topic == want
+			}
+			good = good && n > 0
+		}
+		if good {
+			nOK++
+		} else {
+			nFail++
+			witness = c
+		}
+	}
+	switch {
+	case nFail == 0:
+		return "ok", witness
+	case nOK == 0:
+		return "fail", witness
+	}
+	return "mixed", witness
+}
+
+func c08Census() {
+	for _, g := range c08Gens {
+		for _, hv := range []bool{false, true} {
+			for i := 0; i < len(c08HzChars); i++ {
+				ch := c08HzChars[i]
+				got, w := c08CensusCell(g.key, ch, hv)
+				row := c08Hz()[g.key]
+				set, hvs := row.Novars, "0"
+				if hv {
+					set, hvs = row.Vars, "1"
+				}
+				line := fmt.Sprintf("c08hz %s %s %s", g.key, hvs, hx([]byte{ch}))
+				Case(line, got)
+				Stat("census:" + got)
+				if got != "ok" && strings.IndexByte(set, ch) < 0 {
+					// outside the recorded class and the property fails: a violation with its failing scope
+					OracleFail("a static prefix token with a character OUTSIDE the recorded class of prefix-token-format-chars is not read as text by generated "+langName(g.key)+" code",
+						map[string]interface{}{"op": "c08", "line": w.line(), "idl": c08IDL(w), "char": string(ch), "target": g.key, "has_variables": hv})
+				}
+			}
+		}
+	}
+}
+
 // ---------- suite ----------
+
+// the check splits a suite into jobs with seeds seed*1000+i: the census runs in the first one only
+func c08FirstJob() bool {
+	for i, a := range os.Args {
+		if a == "-seed" && i+1 < len(os.Args) {
+			if n, err := strconv.ParseUint(os.Args[i+1], 10, 64); err == nil {
+				return n%1000 == 0 || n < 1000
+			}
+		}
+	}
+	return true
+}
 
 func c08Report(c c08Case, fails []c08Fail) {
 	seen := map[string]bool{}
@@ -1369,13 +1553,25 @@ func init() {
 	suites["c08"] = func(r *Rng, n int) {
 		c08Known()
 		c08KnownDart()
+		if c08FirstJob() {
+			c08Census()
+		}
 		for i := 0; i < n; i++ {
 			c, kind := genC08(r)
-			if c08HazardToken(c.prefix) {
-				i-- // class of the recorded finding prefix-token-format-chars: not generated
-				continue
-			}
 			outp, fails := c08Exec(c)
+			for _, g := range c08Gens {
+				if c08Hazard(g.key, c.prefix) {
+					Stat("format-chars-class:" + g.key)
+				}
+			}
+			if tk, iv := c08Tokens(c.prefix); true {
+				for k, t := range tk {
+					if !iv[k] && strings.ContainsAny(t, c08HzChars) {
+						Stat("static-token-with-format-character")
+						break
+					}
+				}
+			}
 			Case(c.line(), outp)
 			c08Report(c, fails)
 			Stat("evaluations")
@@ -1399,6 +1595,17 @@ func init() {
 				Sample(map[string]interface{}{"idl": c08IDL(c), "delim": c.delim, "vals": c.vals, "real": outp})
 			}
 		}
+	}
+	lineOps["c08hz"] = func(args []string) (string, bool) {
+		if len(args) != 3 {
+			return "err:parse", true
+		}
+		ch := unhx(args[2])
+		if len(ch) != 1 {
+			return "err:parse", true
+		}
+		got, _ := c08CensusCell(args[0], ch[0], args[1] == "1")
+		return got, true
 	}
 	lineOps["c08"] = func(args []string) (string, bool) {
 		c, ok := c08ParseLine(args)
